@@ -313,16 +313,16 @@ func init() {
 		Cases: func(t string) int { return tierN(t, 4000, 60000) },
 		Run: func(c *core.Ctx) *core.Result {
 			if c.Tier == "thorough" && c.Case == 0 {
-				return repoProgramsCase(c, (*opc.Package).CheckC13)
+				return repoProgramsCase(c, c13Rules)
 			}
 			switch c.Case % 6 {
 			case 4:
-				return markdownCase(c, (*opc.Package).CheckC13)
+				return markdownCase(c, c13Rules)
 			case 5:
-				return foreignExtendCase(c, (*opc.Package).CheckC13)
+				return foreignExtendCase(c, c13Rules)
 			}
 			if c.Case%12 == 3 { // documents rendered from one template, each given its own styles, lists and notes
-				return renderSiblingsCase(c, (*opc.Package).CheckC13, idWeights)
+				return renderSiblingsCase(c, c13Rules, idWeights)
 			}
 			return c13ScriptCase(c, idWeights)
 		},
@@ -335,7 +335,7 @@ func init() {
 
 // c13ScriptCase adds the ledger "styles the API was told to define ⊆ styles in the next save".
 func c13ScriptCase(c *core.Ctx, weights map[string]int) *core.Result {
-	res := scriptCaseWithHook(c, false, tierN(c.Tier, 30, 80), weights, (*opc.Package).CheckC13, 3, func(s *Script, p *opc.Package, res *core.Result) {
+	res := scriptCaseWithHook(c, false, tierN(c.Tier, 30, 80), weights, c13Rules, 3, func(s *Script, p *opc.Package, res *core.Result) {
 		sm := s.Doc.GetStyleManager()
 		if sm == nil {
 			return
@@ -432,6 +432,20 @@ func checkExtras(c *core.Ctx, s *Script, res *core.Result, rules func(*opc.Packa
 		res.Count("batch_renders_checked", 1)
 	}
 	s.Extra = nil
+}
+
+// c13Rules: the package monitor's id rules for scripts in which the caller itself names base styles. A style the caller
+// bases on an id no registry holds (an id from another document, a display name, a style of its own that it removed
+// again) is the caller's doing and no clause of the statement - only a base the library chose must exist.
+func c13Rules(p *opc.Package) []opc.Problem {
+	var out []opc.Problem
+	for _, pr := range p.CheckC13() {
+		if pr.Key == "undefined-basedOn/<custom>" {
+			continue
+		}
+		out = append(out, pr)
+	}
+	return out
 }
 
 // selfTestOPC: the monitor accepts a golden minimal package and rejects golden broken ones.
